@@ -32,7 +32,7 @@ DESC = {
 }
 rows = {}
 for line in LOG.read_text().splitlines() if LOG.exists() else []:
-    m = re.match(r"(/tmp/seed2?_(C\d\d)/([ABCD])) demo without patch: exit (\d+) ; with patch: exit (\d+) ; suite with patch: (.*)", line)
+    m = re.match(r"(/tmp/seed[23]?_(C\d\d)/([A-F])) demo without patch: exit (\d+) ; with patch: exit (\d+) ; suite with patch: (.*)", line)
     if m:
         rows[f"{m.group(2)}-{m.group(3)}"] = (int(m.group(4)), int(m.group(5)), m.group(6), m.group(1))
 extra = json.loads(pathlib.Path("/root/work/seed_desc_extra.json").read_text()) if pathlib.Path("/root/work/seed_desc_extra.json").exists() else {}
